@@ -275,7 +275,13 @@ static void one_case(const vf::Args& a, uint64_t idx) {
         const L p1 = dot(Tr, e.d[0]), p2 = dot(Slm, Egl_dot);
         R.check(nm("stress-power T:dElog==S:dEgl", setting), S, idx, h, std::fabs(p1 - p2), 50 * e.est[0] * nT + allow(64, scS, norm(Sr_ref)) * norm(Egl_dot), dump);
       }
-      const StensorN Tb = hd.convertFromSecondPiolaKirchhoffStress(Sl);
+      StensorN Tb;
+      try {
+        Tb = hd.convertFromSecondPiolaKirchhoffStress(Sl);
+      } catch (std::exception& e) {   // e.g. LUNullPivot from invert(p)
+        R.check(nm("convertFromSecondPiolaKirchhoffStress(convertTo...)==T", setting), S, idx, h, INFINITY, 1, dump, "exception");
+        continue;
+      }
       R.check(nm("convertFromSecondPiolaKirchhoffStress(convertTo...)==T", setting), S, idx, h, dist(from_st(Tb, N), Tr), allow(1024, nT * condC * condC, nT), dump);
       // raw-pointer overloads
       real tab[6]; Trd.exportTab(tab);
@@ -298,7 +304,13 @@ static void one_case(const vf::Args& a, uint64_t idx) {
       const L scs = nT * condC * condC * A_ * A_ / (c.J * c.vpmax);
       if (P.ok) R.check(nm("convertToCauchyStress==F.S.F^T/J", setting), S, idx, h, dist(from_st(sl, N), sig_ref), 50 * P.est * nT * A_ * A_ / c.J + allow(64, scs, norm(sig_ref)), dump);
       else R.skip(nm("convertToCauchyStress==F.S.F^T/J", setting), S);
-      const StensorN Tb = hd.convertFromCauchyStress(sl);
+      StensorN Tb;
+      try {
+        Tb = hd.convertFromCauchyStress(sl);
+      } catch (std::exception& e) {
+        R.check(nm("convertFromCauchyStress(convertTo...)==T", setting), S, idx, h, INFINITY, 1, dump, "exception");
+        continue;
+      }
       R.check(nm("convertFromCauchyStress(convertTo...)==T", setting), S, idx, h, dist(from_st(Tb, N), Tr), allow(4096, nT * condC * condC * condC, nT), dump);
       real tab[6]; Trd.exportTab(tab);
       hd.convertToCauchyStress(tab);
@@ -414,10 +426,24 @@ static void one_case(const vf::Args& a, uint64_t idx) {
   }
 }
 
+// an exception escaping the library on an admissible input ends the case (reported by the guarded call when it is one of
+// the conversions that invert dE_log/dC, otherwise here), never the run
+static void guarded_case(const vf::Args& a, uint64_t idx) {
+  try {
+    one_case(a, idx);
+  } catch (std::exception& e) {
+    char api[64];
+    std::snprintf(api, sizeof api, "exception-escapes<%d>@any", int(N));
+    std::string w = e.what();
+    for (char& ch : w) if (ch == '"' || ch == '\\' || static_cast<unsigned char>(ch) < 0x20) ch = ' ';
+    R.check(api, STRATA[idx % NSTRATA], idx, idx, INFINITY, 1, [&] { vf::J j; j.i("N", N).i("case", (long long)idx).s("what", w); return j.str(); }, "exception");
+  }
+}
+
 int main(int argc, char** argv) {
   vf::Args a(argc, argv);
-  if (a.only >= 0) { one_case(a, uint64_t(a.only)); R.finish(); return 0; }
-  for (long i = 0; i < a.cases; ++i) one_case(a, a.gidx(i));
+  if (a.only >= 0) { guarded_case(a, uint64_t(a.only)); R.finish(); return 0; }
+  for (long i = 0; i < a.cases; ++i) guarded_case(a, a.gidx(i));
   R.finish();
   return 0;
 }
